@@ -101,6 +101,14 @@ func runC05(c *Ctx) {
 		c.Exists(clean1, "map removal present in the cleanup cycle", rm, 1)
 		// the removed list returned is the list whose elements were removed
 		c.Exists(clean1, "cleanup returns the removed list for the next cycle", c.ReturnsD(clean1, 0, "var:removed"), 1)
+		// the slot never keeps a list whose records were just pooled: every return replaces it (a non-nil
+		// error makes Locked.Set keep the old value)
+		for _, r := range Returns(clean1) {
+			if len(r.Results) == 2 {
+				e := c.D(RetVal(r, 1))
+				c.Report(clean1, "cleanup replaces the removed-list slot on every return (nil error)", c.InstrPos(r), e == "nil", "error result "+e+": util.Locked.Set would keep the previous (already pooled) list")
+			}
+		}
 		if cl := c.Need("isaac/states.(*Ballotbox).clean$1$1"); cl != nil {
 			c.Rule("R05.2c", "MustPass")
 			c.MP(cl, "append to removed: stage point below the last point", c.StoresD(cl, "&var:removed"), 1,
@@ -165,6 +173,10 @@ func runC05(c *Ctx) {
 				continue
 			}
 			c.Report(nv, "pooled field "+f+" re-initialised", nv.Pos(), stored[f], "assigned in voterecordsPoolPut ∪ newVoterecords")
+			if stored[f] {
+				c.Report(nv, "pooled field "+f+" re-initialised on every path", nv.Pos(), resetOnEveryPath(c, put, f) || resetOnEveryPath(c, nv, f),
+					"every assignment/clear of the field in voterecordsPoolPut and in newVoterecords is conditional: a recycled record can keep the previous stage point's value")
+			}
 		}
 		c.StoredIs(put, "pool put resets the stage point", c.StoresD(put, "&vr.sp"), 1, "base.ZeroStagePoint")
 		c.StoredIs(nv, "new record takes the requested stage point", c.StoresD(nv, "&isaacstates.voterecordsPool.Get().sp"), 1, "stagepoint")
@@ -228,4 +240,35 @@ func fieldBaseD(c *Ctx, in ssa.Instruction, typeName, field string) string {
 		}
 	}
 	return "?"
+}
+
+// resetOnEveryPath: fn stores to (or clears) field f of a voterecords on every path to its return.
+func resetOnEveryPath(c *Ctx, fn *ssa.Function, f string) bool {
+	set := map[ssa.Instruction]bool{}
+	for _, in := range allInstrs(fn) {
+		switch x := in.(type) {
+		case *ssa.Store:
+			if fa, ok := x.Addr.(*ssa.FieldAddr); ok && fieldIs(fa.X.Type(), fa.Field, "voterecords", f) {
+				set[in] = true
+			}
+		default:
+			if cc := callCommon(in); cc != nil && CalleeFullName(cc) == "clear" && len(cc.Args) == 1 {
+				if u, ok := cc.Args[0].(*ssa.UnOp); ok {
+					if fa, ok := u.X.(*ssa.FieldAddr); ok && fieldIs(fa.X.Type(), fa.Field, "voterecords", f) {
+						set[in] = true
+					}
+				}
+			}
+		}
+	}
+	if len(set) == 0 {
+		return false
+	}
+	res := c.MustPass(fn, nil, AllReturns(fn), Gate{Name: "reset of " + f, Barrier: func(p *Prog, in ssa.Instruction) bool { return set[in] }})
+	for _, r := range res {
+		if !r.OK {
+			return false
+		}
+	}
+	return len(res) > 0
 }
